@@ -126,7 +126,33 @@ func (v *FnVC) contractFormats() map[string]bool {
 		return v.conFormats
 	}
 	v.conFormats = formatsOfContract(v.con)
+	// a literal that no statement of the module prints can only be a misspelt contract (e.g. a missing "\n" for
+	// WriteStringln): refuse it instead of counting an event that never happens
+	if len(v.conFormats) > 0 {
+		known := v.w.mods.allFormats()
+		for f := range v.conFormats {
+			if !known[f] {
+				panic(unsupported("contract of %s names the format literal %q, which no statement of the module prints", FuncKey(v.fn), f))
+			}
+		}
+	}
 	return v.conFormats
+}
+
+func (mi *ModInfo) allFormats() map[string]bool {
+	if mi.allFmts != nil {
+		return mi.allFmts
+	}
+	if mi.emits == nil {
+		mi.computeEmits()
+	}
+	mi.allFmts = map[string]bool{}
+	for _, es := range mi.emits {
+		for f := range es.fs {
+			mi.allFmts[f] = true
+		}
+	}
+	return mi.allFmts
 }
 
 func formatsOfContract(con *Contract) map[string]bool {
